@@ -245,6 +245,19 @@ chk("C19",
     floors={"quick": {"family_checks": 300000, "puts": 5000, "joe_republish_executions": 1000}},
     )
 
+chk("C18",
+    level="exploration",
+    technique="reachability monitor: weak.Pointer probes on every message handed to the real replayers, forced runtime.GC() x2 at model-determined points, compared with the model's set of messages that may still be buffered; reflection probe of ring slots outside the live range; live messages serve as sensitivity control",
+    level_text="Seeded Put/Replay/GC/clock histories on FiniteReplayer (capacities 2-16) and ValidReplayer (TTL 10/100/1000 ns, GCInterval 0, ttl/4, ttl/2, ttl, 3ttl, 1 ns; bursts that grow the ring, advances that expire it, collections that shrink it), both ID modes. The harness keeps only weak pointers and tokens. Finite: after Puts, every message older than the last N must be unreachable. Valid: deadness is asserted only where a collection is certain under the conservative reading (explicit GC, or a Put at least GCInterval after the last certain collection): every message with putTime+TTL <= now must be unreachable. The messages that must still be buffered are required to be alive (probe sensitivity).",
+    level_note="Relies on Go's precise garbage collector and on messages being allocated in a non-inlined helper frame; says nothing about memory held outside *Message (e.g. topic slices).",
+    rule="cases = seeded histories per replayer kind; non-trivial = more puts than the capacity (Finite) or more than 4 puts (Valid); distinct = distinct (configuration, op-string)",
+    assumptions=["runtime.GC() twice collects every unreachable message (precise GC)", "clock non-decreasing"],
+    nbatch={"quick": 16, "thorough": 16},
+    timeout_s={"quick": 600, "thorough": 3600},
+    floors={"quick": {"gc_probes": 15000, "dead_confirmed": 50000, "live_controls_ok": 30000}},
+    gomaxprocs=[2],
+    )
+
 not_built = {
 }
 
